@@ -180,6 +180,20 @@ Definition internal_ok (tg : list N) (before inside : table) : bool :=
            else mem fd tg
        end) (keys before ++ keys inside).
 
+(* B: while the command runs, every redirection target that was open before
+   has a backup: one of the shell's own descriptors (at 10 or above,
+   close-on-exec) open on the very description the target had before.  (A
+   command that runs with a target rebound and no backup cannot be undone: the
+   undo would close the user's descriptor.) *)
+Definition backup_ok (tg : list N) (before inside : table) : bool :=
+  forallb (fun fd =>
+    match lookup before fd with
+    | Some e =>
+        existsb (fun p : N * fdent =>
+                   N.leb 10 (fst p) && e_cx (snd p) && N.eqb (e_ofd (snd p)) (e_ofd e)) inside
+    | None => true
+    end) tg.
+
 (* P: after exec, nothing but the targets has changed *)
 Definition persisted_ok (tg : list N) (before after : table) : bool :=
   forallb (fun fd =>
@@ -344,6 +358,7 @@ Definition oracle_seen (nc : bool) (lim : option N) (ref before : obs) (c : cmd)
         if internal_ok (0%N :: tg) (ob_tab before) (ob_tab inside) then None else Some 2%N
       else
       if negb (internal_ok tg (ob_tab before) (ob_tab inside)) then Some 2%N
+      else if negb (backup_ok tg (ob_tab before) (ob_tab inside)) then Some 10%N
       else
         match sp with
         | None => Some 3%N                (* ran although the list must fail (noclobber, closed source, ...) *)
